@@ -5,7 +5,7 @@ cd "$(dirname "$0")"
 export CARGO_NET_OFFLINE=true
 mkdir -p out evidence
 [ -f harness/Cargo.lock ] || cp /repo/Cargo.lock harness/Cargo.lock
-for v in os memfd inprocess; do
+for v in os memfd inprocess async; do
   case $v in
     os) feat="" ;;
     *) feat="--features $v" ;;
